@@ -3,15 +3,15 @@
 (* Model checking of the dissemination protocols with ONE global routing   *)
 (* function shared by all nodes: TLC picks, in the initial state, the      *)
 (* protocol, the validator count, the fanout and EVERY possible global     *)
-(* function (every relay assignment / every permutation per shred), then   *)
-(* explores every interleaving of leader sends and deliveries.             *)
+(* function (every relay assignment / every tree per shred), then explores *)
+(* every interleaving of leader sends and deliveries.                      *)
 (* Stakes do not appear: they only bias WHICH function is chosen, and the  *)
 (* model quantifies over all of them.  The leader is validator 0 (the      *)
 (* function space is closed under renaming of the other validators).       *)
 (*                                                                         *)
 (* Deviant # -1 : that one validator routes with a second, independently   *)
 (* chosen function - used only to show that the delivery invariants are    *)
-(* not vacuous (they must then be violated).                               *)
+(* not vacuous (they must then be violated): agreement is necessary.       *)
 (***************************************************************************)
 EXTENDS Dissemination, TLC
 
@@ -20,7 +20,8 @@ CONSTANTS
   MinN, MaxN, \* validator counts
   MaxF,       \* Turbine fanouts 1..MaxF
   NShreds,    \* function n -> number of shreds disseminated concurrently
-  Deviant     \* -1, or the validator that uses its own function
+  Deviant,    \* -1, or the validator that uses its own function
+  RecN        \* largest validator count for which the tree recogniser is cross-checked
 
 VARIABLES kind, n, f, gf, alt, st
 
@@ -43,56 +44,71 @@ Init ==
   /\ st = EmptyRun
 
 \* the function validator v routes with
-View(v) == IF v = Deviant THEN alt ELSE gf
+FnOf(v) == IF v = Deviant THEN alt ELSE gf
 
 Send(sh) ==
-  /\ sh \notin st.led
-  /\ st' = LeaderSend(st, L, sh, SendDests(kind, n, View(L)[sh]))
+  /\ sh \notin Led(st)
+  /\ st' = LeaderSend(st, n, L, sh, SendDests(kind, n, FnOf(L)[sh]))
   /\ UNCHANGED <<kind, n, f, gf, alt>>
 
 Receive(m) ==
-  /\ st' = Deliver(st, m, ForwardDests(kind, n, L, m[2], View(m[2])[m[3]]),
-                   IsRelayBroadcast(kind, m[2], View(m[2])[m[3]]))
-  /\ UNCHANGED <<kind, n, f, gf, alt>>
+  LET from == m[1]  to == m[2]  sh == m[3]
+  IN /\ st' = Deliver(st, sh, from, to, ForwardDests(kind, n, L, to, FnOf(to)[sh]),
+                      IsRelayBroadcast(kind, to, FnOf(to)[sh]))
+     /\ UNCHANGED <<kind, n, f, gf, alt>>
 
 Next ==
   \/ \E sh \in ShredIds(n) : Send(sh)
   \/ \E m \in InFlight(st) : Receive(m)
 
-Terminal == st.led = ShredIds(n) /\ Quiet(st)
+Terminal == Led(st) = ShredIds(n) /\ Quiet(st)
 
 ---------------------------------------------------------------------------
 (* C16 (delivery): checked in every reachable state *)
-EveryoneReceivesInv == Terminal => EveryoneReceives(st, n, L)
-ExactlyOnceTurbine == (Terminal /\ kind = "turbine") => ExactlyOnce(st, n, L)
+EveryoneReceivesInv == Terminal => \A sh \in Led(st) : EveryoneReceives(st[sh], n, L)
+ExactlyOnceTurbine == (Terminal /\ kind = "turbine") => \A sh \in Led(st) : ExactlyOnce(st[sh], n, L)
 OneRelayBroadcastRotor ==
   (Terminal /\ kind = "rotor") =>
-     /\ OneRelayBroadcast(st)
-     /\ \A sh \in st.led : Broadcasts(st, sh) = <<gf[sh]>>
-     /\ ExactlyOnce(st, n, L)
-TrivialOnce == (Terminal /\ kind = "trivial") => ExactlyOnce(st, n, L)
-NeverTwiceInv == NeverTwice(st)
-OnlyLeaderShredsInv == OnlyLeaderShreds(st)
-\* messages only between validators; nobody sends to itself except the leader (own relay / root)
+     \A sh \in Led(st) :
+       /\ OneRelayBroadcast(st[sh])
+       /\ st[sh].bc = <<gf[sh]>>
+       /\ ExactlyOnce(st[sh], n, L)
+TrivialOnce == (Terminal /\ kind = "trivial") => \A sh \in Led(st) : ExactlyOnce(st[sh], n, L)
+DeliveredInv == Terminal => \A sh \in Led(st) : Delivered(kind, st[sh], n, L)
+NeverTwiceInv == \A sh \in Led(st) : NeverTwice(st[sh], n)
+\* copies only travel between validators; nobody sends to itself except the leader (own relay / root)
 WellAddressed ==
   \A m \in InFlight(st) : m[1] \in Vals(n) /\ m[2] \in Vals(n) /\ (m[1] = m[2] => m[1] = L)
-\* the number of network messages per shred is what the protocols promise
+\* the number of copies received per shred is what the protocols promise
 MessageBudget ==
   Terminal =>
-    \A sh \in st.led :
-      LET got == Cardinality({v \in Vals(n) : Got(st, v, sh) = 1})
+    \A sh \in Led(st) :
+      LET got == Cardinality({v \in Vals(n) : st[sh].rcv[v] = 1})
       IN CASE kind = "turbine" -> got = n
            [] kind = "trivial" -> got = n
            [] kind = "rotor"   -> got = (IF gf[sh] = L THEN n ELSE n - 1)
+\* The recogniser used by the trace specification (IsTurbineTree) accepts exactly the trees of
+\* the model: among ALL graphs "a root plus one parent per other validator" (this includes every
+\* spanning tree of any shape, and graphs with cycles), it holds precisely for TreeOf(ord, f).
+\* Constant-level, evaluated once.
+ParentGraphs(nn) ==
+  UNION {{[root |-> r, kids |-> [v \in Vals(nn) |-> {c \in Vals(nn) \ {r} : par[c] = v}]]
+            : par \in [Vals(nn) \ {r} -> Vals(nn)]} : r \in Vals(nn)}
+RecogniserOK(nn) ==
+  \A ff \in 1..MaxF :
+    LET E == Entries("turbine", nn, ff)
+    IN /\ \A t \in E : IsTurbineTree(t, nn, ff)
+       /\ \A t \in ParentGraphs(nn) : IsTurbineTree(t, nn, ff) <=> t \in E
+ASSUME TreeRecogniser == \A nn \in MinN..RecN : RecogniserOK(nn)
 
 \* vacuity witnesses (must be violated = reachable)
 W_Terminal == ~Terminal
-W_RelayIsLeader == ~(Terminal /\ kind = "rotor" /\ \E sh \in st.led : gf[sh] = L)
-W_RelayNotLeader == ~(Terminal /\ kind = "rotor" /\ n >= 3 /\ \E sh \in st.led : gf[sh] # L)
+W_RelayIsLeader == ~(Terminal /\ kind = "rotor" /\ \E sh \in Led(st) : gf[sh] = L)
+W_RelayNotLeader == ~(Terminal /\ kind = "rotor" /\ n >= 3 /\ \E sh \in Led(st) : gf[sh] # L)
 W_LeaderInnerNode ==
-  ~(Terminal /\ kind = "turbine" /\ \E sh \in st.led : gf[sh].root # L /\ gf[sh].kids[L] # {})
+  ~(Terminal /\ kind = "turbine" /\ \E sh \in Led(st) : gf[sh].root # L /\ gf[sh].kids[L] # {})
 W_DeepTree ==
   ~(Terminal /\ kind = "turbine" /\
-      \E sh \in st.led : \E a, b \in Vals(n) :
-         a # gf[sh].root /\ a \in gf[sh].kids[gf[sh].root] /\ b \in gf[sh].kids[a])
+      \E sh \in Led(st) : \E a, b \in Vals(n) :
+         a \in gf[sh].kids[gf[sh].root] /\ b \in gf[sh].kids[a])
 =============================================================================
